@@ -18,6 +18,7 @@ type Program struct {
 	Name      string
 	CreateSQL string
 	Funcs     map[string]any
+	Params    map[string][]string // parameter names of the exported functions
 	Types     map[string]any   // table struct zero values by Go name
 	Enums     map[string][]any // enum type name -> exported constants
 	Info      string           // JSON: []synth.TableInfo
@@ -698,6 +699,17 @@ func (h *hist) resync() {
 }
 
 // checkAll is the cross-invariant: every table read back in full equals the model.
+// checkOne reads one table back in full and compares it with the model.
+func (h *hist) checkOne(t *tinfo) {
+	name := "SelectAll" + t.Name + "s"
+	outs, err := h.call(name, h.mustFn(name), h.db())
+	h.note("%s() -> err=%v", name, err)
+	if h.faulted() || !h.judgeErr(name, err) {
+		return
+	}
+	h.compareSet(name, t, outs[0], t.rows)
+}
+
 func (h *hist) checkAll() {
 	for _, t := range h.tables {
 		if h.viol != nil {
